@@ -4,10 +4,10 @@ SPEC = dict(
         "The property is FALSE of the current source: the search harness (real fiber routes POST /api/v1/query, /query/arrow, "
         "/query/estimate, GET /query/:measurement, GET /measurements, SHOW; real ValidateSQLRequest + header rules + "
         "checkQueryPermissions with a recording RBAC checker granting exactly ONE database + getTransformedSQL[ForParallel] + the real "
-        "sandboxed DuckDB over a temp storage root with canary rows in the unauthorised databases) reads canaries in 11 classes: "
+        "sandboxed DuckDB over a temp storage root with canary rows in the unauthorised databases) reads canaries / unchecked files in 13 classes (17 monitor keys, known/C14.jsonl): "
         "backslash before a closing quote, E'..\\\\', quote inside a line / block comment, comment marker inside a quoted identifier "
         "(ioDenylistNormalise strips the quotes), placeholder look-alike '__STR_1__' (first-occurrence unmask), non-ASCII blank between a "
-        "reader name and '(' (DuckDB blank, not \\s), header + digit-glued FROM on the single-table fast path, header + CTE-name exclusion "
+        "reader name and '(' (DuckDB blank, not \\s), query('<sql in a string>') and parquet_full_metadata missing from the denylist, header + digit-glued FROM on the single-table fast path, header + CTE-name exclusion "
         "gated by the substring 'with ' on the rewrite side only (WITH<LF>x, named WINDOW read as a CTE), a subquery in the `where` "
         "parameter of GET /query/:measurement (checkQueryPermissions never runs there), and the lower-cased de-duplication key "
         "(CPU vs cpu). PROVED in Lean 4 instead, compositionally: (C) C14_rewrite_subset_checked / _hdr - for an ABSTRACT regex matcher "
@@ -30,7 +30,7 @@ SPEC = dict(
         "checkQueryPermissions hands to the RBAC checker during the HTTP request). NOT diffed against Lean: the rewritten text / "
         "rewritten pair set (monitored against the checked set instead), SHOW / listing endpoints (decision tables in the harness only)."
     ),
-    level_note="proof (partial, compositional; property false: 15 monitor keys on the unchanged tree; DuckDB read-set and lexer agreement are hypotheses)",
+    level_note="proof (partial, compositional; property false: 17 monitor keys on the unchanged tree; DuckDB read-set and lexer agreement are hypotheses)",
     technique="Lean 4: abstract-matcher refinement proof (maps/filters over match lists, de-duplication key injectivity), token-level validation theorems over a regenerated denylist, byte-level executable transcription of mask/strip/validate/extract with hand-compiled RE2 matchers diffed against the real code; search harness executing every accepted statement on the real query path against a sandboxed DuckDB with canary data and DuckDB's own parse tree (json_serialize_sql) as read-set oracle",
     factgen=True,
     hooks={"internal/api": "go/hooks/c14_api"},
